@@ -8,13 +8,17 @@ import (
 	"archive/tar"
 	"bytes"
 	"context"
+	"encoding/hex"
+	"fmt"
 	"net/url"
 	"os"
 	"path/filepath"
 	"sort"
 	"strings"
 
+	"chainguard.dev/apko/pkg/apk/apk"
 	"chainguard.dev/apko/pkg/apk/expandapk"
+	apkfs "chainguard.dev/apko/pkg/apk/fs"
 
 	"verifharness/gal"
 	"verifharness/synthrepo"
@@ -112,6 +116,88 @@ func stagePaths2(w *gal.Writer, r *gal.Rand) {
 		abstractDir := "/C/" + sub
 		addCase(w, "PExpand", "expand", map[string]any{"cache_dir": abstractDir, "created": created, "signed": signed, "error": errStr(err)}, false,
 			gal.Str(abstractDir), gal.StrList(created))
+	}
+	stageCacheNames(w)
+}
+
+// stageCacheNames: a package installed through a disk cache (cachePackage advertises the expanded
+// sections under names made of their hashes): what the package's cache directory holds afterwards
+func stageCacheNames(w *gal.Writer) {
+	scratch, err := os.MkdirTemp("", "c18cache")
+	if err != nil {
+		return
+	}
+	defer os.RemoveAll(scratch)
+	key, _ := synthrepo.NewKey("c18cache.rsa.pub")
+	for i, signed := range []bool{false, true} {
+		p := &synthrepo.Pkg{Name: "cached", Version: fmt.Sprintf("1.%d-r0", i), Origin: "cached",
+			Files: []synthrepo.File{{Name: "usr", Type: tar.TypeDir, Mode: 0o755}, {Name: "usr/c", Mode: 0o644, Content: []byte("c")}}}
+		var built *synthrepo.Built
+		if signed {
+			built, err = p.Build(key)
+		} else {
+			built, err = p.Build(nil)
+		}
+		if err != nil {
+			continue
+		}
+		src := filepath.Join(scratch, "in", "x86_64")
+		_ = os.MkdirAll(src, 0o755)
+		apkPath := filepath.Join(src, built.Filename())
+		_ = os.WriteFile(apkPath, built.Bytes, 0o644)
+		cacheRoot := filepath.Join(scratch, fmt.Sprintf("cache-%d", i))
+		h := handle{apkPath, "cached", built.Checksum()}
+		cacheDir, err := apk.VerifCacheDirForPackage(cacheRoot, h)
+		if err != nil {
+			continue
+		}
+		var ierr error
+		func() {
+			defer func() {
+				if r := recover(); r != nil {
+					ierr = fmt.Errorf("panic: %v", r)
+				}
+			}()
+			a, err := apk.New(apk.WithFS(apkfs.NewMemFS()), apk.WithArch("x86_64"), apk.WithIgnoreMknodErrors(true),
+				apk.WithCache(cacheRoot, false, apk.NewCache(false)))
+			if err != nil {
+				ierr = err
+				return
+			}
+			ctx := context.Background()
+			if ierr = a.InitDB(ctx); ierr != nil {
+				return
+			}
+			_, ierr = a.InstallPackages(ctx, nil, []apk.InstallablePackage{h})
+		}()
+		// the direct entries of the package's cache directory, and anything that is not a
+		// directory anywhere else below the cache root (nothing is expected there)
+		var present []string
+		relDir, _ := filepath.Rel(cacheRoot, cacheDir)
+		_ = filepath.Walk(cacheRoot, func(q string, fi os.FileInfo, err error) error {
+			if err != nil || q == cacheRoot {
+				return nil
+			}
+			rel, _ := filepath.Rel(cacheRoot, q)
+			// the directory's own name carries the (escaped) temporary path: it is called pkgdir
+			if rel == relDir || strings.HasPrefix(rel, relDir+"/") {
+				rel = "pkgdir" + rel[len(relDir):]
+			}
+			switch {
+			case filepath.Dir(q) == cacheDir:
+				present = append(present, "/C/"+rel)
+				if fi.IsDir() {
+					return filepath.SkipDir
+				}
+			case !fi.IsDir():
+				present = append(present, "/C/"+rel)
+			}
+			return nil
+		})
+		sort.Strings(present)
+		ctl, dat := hex.EncodeToString(built.ControlSHA1), hex.EncodeToString(built.DataSHA256)
+		addCase(w, "PCacheNames", "cache-package", map[string]any{"signed": signed, "present": present, "control_sha1": ctl, "data_sha256": dat, "error": errStr(ierr)}, false,
+			gal.Str("/C/pkgdir"), gal.Str(ctl), gal.Str(dat), gal.Bool(signed), gal.StrList(present))
 	}
 }
 
